@@ -110,4 +110,361 @@ theorem shift_expandFrom {α : Type} (s : Nat) : ∀ (Q : List (α × Nat)) (N a
     rw [ih N d y (fun q hq => h q (List.mem_cons_of_mem _ hq)) hd hsN]
     congr 2; omega
 
+/-! ### one segment -/
+
+theorem maskSelect_fst {α β : Type} (p : β → Bool) : ∀ (P : List (α × β)),
+    maskSelect (P.map (·.1)) ((P.map (·.2)).map p) = (P.filter (fun q => p q.2)).map (·.1) := by
+  intro P
+  induction P with
+  | nil => rfl
+  | cons q t ih =>
+    cases hq : p q.2 <;> simp only [List.map_cons, maskSelect, hq, List.filter_cons, Bool.false_eq_true, if_false,
+      if_true, ih]
+
+theorem maskSelect_snd {α β : Type} (p : β → Bool) : ∀ (P : List (α × β)),
+    maskSelect (P.map (·.2)) ((P.map (·.2)).map p) = (P.filter (fun q => p q.2)).map (·.2) := by
+  intro P
+  induction P with
+  | nil => rfl
+  | cons q t ih =>
+    cases hq : p q.2 <;> simp only [List.map_cons, maskSelect, hq, List.filter_cons, Bool.false_eq_true, if_false,
+      if_true, ih]
+
+theorem curAt_getNat : ∀ (Q : List (Nat × Nat)) (cur s : Nat),
+    getNat (cur :: Q.map (·.1)) ((Q.map (·.2)).takeWhile (fun e => decide (e ≤ s))).length = .ok (curAt cur Q s) := by
+  intro Q
+  induction Q with
+  | nil => intro cur s; simp [getNat, curAt]
+  | cons p t ih =>
+    intro cur s
+    obtain ⟨y, d⟩ := p
+    by_cases hds : d ≤ s
+    · have := ih y s
+      simp only [getNat] at this ⊢
+      simp only [List.map_cons, List.takeWhile_cons, hds, decide_true, if_true, List.length_cons,
+        List.getElem?_cons_succ, curAt]
+      exact this
+    · simp [getNat, curAt, hds]
+
+theorem curAt_of_gt {α : Type} (cur : α) : ∀ (Q : List (α × Nat)) (s : Nat), (∀ p ∈ Q, s < p.2) → curAt cur Q s = cur := by
+  intro Q s h
+  cases Q with
+  | nil => rfl
+  | cons p t =>
+    have := h p (List.mem_cons_self ..)
+    obtain ⟨y, d⟩ := p
+    have hn : ¬ d ≤ s := by simp only at this; omega
+    simp [curAt, hn]
+
+/-- on pairs sorted strictly by start: the pairs inside `[s, e)` are the pair starting exactly at
+    `s` (which then carries the value in effect at `s`) followed by those strictly inside -/
+theorem filter_segment (s e : Nat) : ∀ (P : List (Nat × Nat)) (cur : Nat), (P.map (·.2)).Pairwise (· < ·) →
+    (P.filter (fun q => decide (s ≤ q.2 ∧ q.2 < e)) =
+        (curAt cur P s, s) :: P.filter (fun q => decide (s < q.2 ∧ q.2 < e)) ∧
+      (P.filter (fun q => decide (s ≤ q.2 ∧ q.2 < e))).head?.map (·.2) = some s) ∨
+    (P.filter (fun q => decide (s ≤ q.2 ∧ q.2 < e)) = P.filter (fun q => decide (s < q.2 ∧ q.2 < e)) ∧
+      (P.filter (fun q => decide (s ≤ q.2 ∧ q.2 < e))).head?.map (·.2) ≠ some s) := by
+  intro P
+  induction P with
+  | nil => intro cur _; right; simp
+  | cons p t ih =>
+    intro cur hs
+    obtain ⟨y, d⟩ := p
+    have hs' := List.pairwise_cons.mp (by simpa using hs : (d :: t.map (·.2)).Pairwise (· < ·))
+    by_cases h1 : d < s
+    · have hn1 : ¬ (s ≤ d ∧ d < e) := by omega
+      have hn2 : ¬ (s < d ∧ d < e) := by omega
+      have hds : d ≤ s := by omega
+      simp only [List.filter_cons, hn1, hn2, decide_false, Bool.false_eq_true, if_false, curAt, hds, if_true]
+      exact ih y hs'.2
+    · have hgt : ∀ q ∈ t, d < q.2 := fun q hq => hs'.1 q.2 (List.mem_map_of_mem hq)
+      have hcongr : t.filter (fun q => decide (s ≤ q.2 ∧ q.2 < e)) = t.filter (fun q => decide (s < q.2 ∧ q.2 < e)) := by
+        apply List.filter_congr
+        intro q hq
+        have := hgt q hq
+        simp only [decide_eq_decide]
+        constructor <;> (intro h; omega)
+      by_cases h2 : d = s
+      · subst h2
+        by_cases hde : d < e
+        · left
+          have hcur : curAt cur ((y, d) :: t) d = y := by
+            simp only [curAt, Nat.le_refl, if_true]
+            exact curAt_of_gt y t d hgt
+          have hn2 : ¬ (d < d ∧ d < e) := by omega
+          have e1 : decide (d ≤ d ∧ d < e) = true := by simp [hde]
+          have e2 : decide (d < d ∧ d < e) = false := by simp
+          simp only [List.filter_cons, e1, e2, if_true, Bool.false_eq_true, if_false, hcur, hcongr,
+            List.head?_cons, Option.map_some]
+          exact ⟨trivial, trivial⟩
+        · right
+          have hn1 : ¬ (d ≤ d ∧ d < e) := by omega
+          have hn2 : ¬ (d < d ∧ d < e) := by omega
+          simp only [List.filter_cons, hn1, hn2, decide_false, Bool.false_eq_true, if_false, hcongr]
+          refine ⟨trivial, ?_⟩
+          intro hh
+          cases hf : t.filter (fun q => decide (d < q.2 ∧ q.2 < e)) with
+          | nil => rw [hf] at hh; simp at hh
+          | cons q u =>
+            rw [hf] at hh
+            simp only [List.head?_cons, Option.map_some, Option.some.injEq] at hh
+            have hq : q ∈ t.filter (fun q => decide (d < q.2 ∧ q.2 < e)) := by rw [hf]; exact List.mem_cons_self ..
+            have := (List.mem_filter.mp hq).2
+            simp only [decide_eq_true_eq] at this
+            omega
+      · right
+        have hsd : s < d := by omega
+        have heq : ((y, d) :: t).filter (fun q => decide (s ≤ q.2 ∧ q.2 < e)) =
+            ((y, d) :: t).filter (fun q => decide (s < q.2 ∧ q.2 < e)) := by
+          apply List.filter_congr
+          intro q hq
+          have : s < q.2 := by
+            rcases List.mem_cons.mp hq with rfl | hq
+            · exact hsd
+            · have := hgt q hq; omega
+          simp only [decide_eq_decide]
+          constructor <;> (intro h; omega)
+        refine ⟨heq, ?_⟩
+        rw [heq]
+        intro hh
+        cases hf : ((y, d) :: t).filter (fun q => decide (s < q.2 ∧ q.2 < e)) with
+        | nil => rw [hf] at hh; simp at hh
+        | cons q u =>
+          rw [hf] at hh
+          simp only [List.head?_cons, Option.map_some, Option.some.injEq] at hh
+          have hq : q ∈ ((y, d) :: t).filter (fun q => decide (s < q.2 ∧ q.2 < e)) := by
+            rw [hf]; exact List.mem_cons_self ..
+          have := (List.mem_filter.mp hq).2
+          simp only [decide_eq_true_eq] at this
+          omega
+
+theorem curAt_mem (cur : Nat) : ∀ (Q : List (Nat × Nat)) (s : Nat), curAt cur Q s = cur ∨ curAt cur Q s ∈ Q.map (·.1) := by
+  intro Q
+  induction Q generalizing cur with
+  | nil => intro s; left; rfl
+  | cons p t ih =>
+    intro s
+    obtain ⟨y, d⟩ := p
+    simp only [curAt]
+    split
+    · rcases ih y s with h | h
+      · right; rw [h]; simp
+      · right; simp only [List.map_cons, List.mem_cons]; exact Or.inr h
+    · left; rfl
+
+/-- **One segment of `partition`**: the container built for `[start, stop)` is well-formed, starts
+    at dump 0, shares the unique values, covers `stop - start` dumps and its per-dump list is the
+    slice `[start, stop)` of the parent's per-dump list. -/
+theorem segment_spec (c : Cat V) (h : c.Part) (start stop : Nat) (hlt : start < stop) (hN : stop ≤ c.numDumps) :
+    ∃ part : Cat V, part.Part ∧ part.uniq = c.uniq ∧ part.numDumps = stop - start ∧
+      part.perDump = (c.perDump.drop start).take (stop - start) ∧
+      ∀ (more : List Nat), Cat.partition.go c c.ev.dropLast (start :: stop :: more) =
+        (do let r ← Cat.partition.go c c.ev.dropLast (stop :: more); pure (part :: r)) := by
+  obtain ⟨i0, rest, hi, he⟩ := part_view c h
+  have hstrict := strictInc_pairwise _ h.1.1
+  rw [he] at hstrict
+  have hrestS : (rest.map (·.2)).Pairwise (· < ·) := by
+    have h1 := (List.pairwise_cons.mp hstrict).2
+    exact (List.pairwise_append.mp h1).1
+  have hrest0 : ∀ p ∈ rest, 0 < p.2 := fun p hp =>
+    (List.pairwise_cons.mp hstrict).1 p.2 (List.mem_append_left _ (List.mem_map_of_mem hp))
+  have hrestN : ∀ p ∈ rest, p.2 < c.numDumps := fun p hp =>
+    (List.pairwise_append.mp (List.pairwise_cons.mp hstrict).2).2.2 p.2 (List.mem_map_of_mem hp) _ (by simp)
+  have hdl : c.ev.dropLast = 0 :: rest.map (·.2) := by rw [he]; exact dropLast_cons_snoc _ _ _
+  let cur' := curAt i0 rest start
+  let S' := rest.filter (fun q => decide (start < q.2 ∧ q.2 < stop))
+  let part : Cat V := { uniq := c.uniq, idx := cur' :: S'.map (·.1),
+                        ev := 0 :: (S'.map (fun q => q.2 - start) ++ [stop - start]) }
+  have hS'mem : ∀ q ∈ S', q ∈ rest ∧ start < q.2 ∧ q.2 < stop := by
+    intro q hq
+    have := List.mem_filter.mp hq
+    exact ⟨this.1, by simpa using this.2⟩
+  have hS'S : (S'.map (·.2)).Pairwise (· < ·) :=
+    List.Pairwise.sublist (List.Sublist.map _ List.filter_sublist) hrestS
+  have hpartN : part.numDumps = stop - start := by
+    simp only [part, Cat.numDumps]; exact getLastD_cons_snoc _ _ _ _
+  have hpartPart : part.Part := by
+    refine ⟨⟨?_, by simp [part], ?_, h.1.2.2.2⟩, by simp [part], by simp [part]⟩
+    · apply pairwise_lt_strictInc
+      simp only [part]
+      refine List.pairwise_cons.mpr ⟨?_, ?_⟩
+      · intro x hx
+        simp only [List.mem_append, List.mem_map, List.mem_singleton] at hx
+        rcases hx with ⟨q, hq, rfl⟩ | rfl
+        · have := hS'mem q hq; omega
+        · omega
+      · rw [List.pairwise_append]
+        refine ⟨?_, by simp, ?_⟩
+        · rw [List.pairwise_map]
+          have := List.pairwise_map.mp hS'S
+          refine List.Pairwise.imp_of_mem ?_ this
+          intro a b ha hb hab
+          have := hS'mem a ha; have := hS'mem b hb
+          omega
+        · intro a ha b hb
+          simp only [List.mem_map] at ha
+          obtain ⟨q, hq, rfl⟩ := ha
+          simp only [List.mem_singleton] at hb
+          subst hb
+          have := hS'mem q hq; omega
+    · intro i hi'
+      simp only [part, List.mem_cons, List.mem_map] at hi'
+      apply h.1.2.2.1
+      rw [hi]
+      rcases hi' with rfl | ⟨q, hq, rfl⟩
+      · rcases curAt_mem i0 rest start with h1 | h1
+        · simp only [cur', h1]; exact List.mem_cons_self ..
+        · exact List.mem_cons_of_mem _ h1
+      · exact List.mem_cons_of_mem _ (List.mem_map_of_mem (hS'mem q hq).1)
+  refine ⟨part, hpartPart, rfl, hpartN, ?_, ?_⟩
+  · -- per-dump slice
+    rw [perDump_view part cur' 0 (S'.map (fun q => (q.1, q.2 - start))) (stop - start)
+      (by simp [part, List.map_map, Function.comp]) (by simp [part, List.map_map, Function.comp])]
+    rw [perDump_view c i0 0 rest c.numDumps hi he]
+    simp only [List.replicate_zero, List.nil_append, ← List.map_drop, ← List.map_take]
+    congr 1
+    have hshift := shift_expandFrom start S' stop start cur' (fun q hq => by have := hS'mem q hq; omega)
+      (Nat.le_refl _) (by omega)
+    simp only [Nat.sub_self] at hshift
+    rw [hshift]
+    have hsorted0 : (0 :: rest.map (·.2)).Pairwise (· ≤ ·) :=
+      List.pairwise_cons.mpr ⟨fun _ _ => Nat.zero_le _, hrestS.imp (fun h => Nat.le_of_lt h)⟩
+    have hdrop := drop_expandFrom c.numDumps rest 0 i0 start hsorted0 (Nat.zero_le _)
+    simp only [Nat.sub_zero] at hdrop
+    rw [hdrop]
+    have hsorted1 : (start :: (rest.filter (fun p => decide (start < p.2))).map (·.2)).Pairwise (· ≤ ·) := by
+      refine List.pairwise_cons.mpr ⟨?_, ?_⟩
+      · intro x hx
+        simp only [List.mem_map] at hx
+        obtain ⟨q, hq, rfl⟩ := hx
+        have := (List.mem_filter.mp hq).2
+        simp only [decide_eq_true_eq] at this; omega
+      · exact (List.Pairwise.sublist (List.Sublist.map _ List.filter_sublist) hrestS).imp (fun h => Nat.le_of_lt h)
+    rw [take_expandFrom c.numDumps _ start cur' stop hsorted1 (by omega) hN]
+    rw [List.filter_filter]
+    congr 1
+    apply List.filter_congr
+    intro q _
+    simp only [Bool.and_eq_true, decide_eq_true_eq, Bool.decide_and]
+    rw [Bool.and_comm]
+  · -- the mirror builds exactly this container
+    intro more
+    have hk : ((0 :: rest.map (·.2)).takeWhile (fun e => decide (e ≤ start))).length =
+        ((rest.map (·.2)).takeWhile (fun e => decide (e ≤ start))).length + 1 := by
+      simp [List.takeWhile_cons]
+    have hkle : ((rest.map (·.2)).takeWhile (fun e => decide (e ≤ start))).length ≤ rest.length := by
+      have := (List.takeWhile_sublist (fun e => decide (e ≤ start)) (l := rest.map (·.2))).length_le
+      simpa using this
+    have hinit : getNat c.idx ((rest.map (·.2)).takeWhile (fun e => decide (e ≤ start))).length = .ok cur' := by
+      rw [hi]; exact curAt_getNat rest i0 start
+    have hmaskI : maskSelect c.idx ((0 :: rest.map (·.2)).map (fun e => decide (start ≤ e ∧ e < stop))) =
+        (((i0, 0) :: rest).filter (fun q => decide (start ≤ q.2 ∧ q.2 < stop))).map (·.1) := by
+      rw [hi]
+      exact maskSelect_fst (fun e => decide (start ≤ e ∧ e < stop)) ((i0, 0) :: rest)
+    have hmaskE : maskSelect (0 :: rest.map (·.2)) ((0 :: rest.map (·.2)).map (fun e => decide (start ≤ e ∧ e < stop))) =
+        (((i0, 0) :: rest).filter (fun q => decide (start ≤ q.2 ∧ q.2 < stop))).map (·.2) :=
+      maskSelect_snd (fun e => decide (start ≤ e ∧ e < stop)) ((i0, 0) :: rest)
+    have hPS : (((i0, 0) :: rest).map (·.2)).Pairwise (· < ·) := by
+      simp only [List.map_cons]
+      exact List.pairwise_cons.mpr ⟨fun x hx => by
+        simp only [List.mem_map] at hx; obtain ⟨q, hq, rfl⟩ := hx; exact hrest0 q hq, hrestS⟩
+    have hS'eq : ((i0, 0) :: rest).filter (fun q => decide (start < q.2 ∧ q.2 < stop)) = S' := by
+      have : ¬ (start < 0 ∧ 0 < stop) := by omega
+      simp only [List.filter_cons, this, decide_false, Bool.false_eq_true, if_false, S']
+    have hcur : curAt i0 ((i0, 0) :: rest) start = cur' := by
+      simp only [curAt, Nat.zero_le, if_true, cur']
+    have hlenEv : (0 :: rest.map (·.2)).length = c.idx.length := by rw [hi]; simp
+    simp only [Cat.partition.go, hdl, hk, Nat.succ_ne_zero, if_false, Nat.add_sub_cancel, List.length_cons,
+      List.length_map, Nat.min_eq_left hkle, hinit, bind, Except.bind, hmaskI, hmaskE]
+    rcases filter_segment start stop ((i0, 0) :: rest) i0 hPS with ⟨hf, _⟩ | ⟨hf, hhead⟩
+    · rw [hf, hS'eq, hcur]
+      simp only [List.map_cons, Nat.sub_self, List.head?_cons, if_true, List.map_map, Function.comp, List.cons_append]
+      rfl
+    · rw [hf, hS'eq] at hhead ⊢
+      have hne : ¬ (List.map ((fun e => e - start) ∘ fun (x : Nat × Nat) => x.snd) S').head? = some 0 := by
+        intro hh
+        cases hS : S' with
+        | nil => rw [hS] at hh; simp at hh
+        | cons q u =>
+          rw [hS] at hh
+          simp only [List.map_cons, List.head?_cons, Option.some.injEq, Function.comp] at hh
+          have := hS'mem q (by rw [hS]; exact List.mem_cons_self ..)
+          omega
+      simp only [List.map_map, hne, if_false, List.cons_append]
+      rfl
+
+/-! ### the whole partition, and partition followed by concatenation -/
+
+theorem slice_append {α : Type} (l : List α) (a b c : Nat) (hab : a ≤ b) (hbc : b ≤ c) :
+    (l.drop a).take (b - a) ++ (l.drop b).take (c - b) = (l.drop a).take (c - a) := by
+  have h1 : c - a = (b - a) + (c - b) := by omega
+  rw [h1, List.take_add, List.drop_drop]
+  congr 3
+  omega
+
+theorem go_spec_partition (c : Cat V) (h : c.Part) : ∀ (ss : List Nat) (s0 : Nat),
+    (s0 :: ss).Pairwise (· < ·) → (s0 :: ss).getLastD 0 ≤ c.numDumps →
+    ∃ parts, Cat.partition.go c c.ev.dropLast (s0 :: ss) = .ok parts ∧
+      (∀ p ∈ parts, p.Part ∧ p.uniq = c.uniq) ∧ parts.length = ss.length ∧
+      (parts.map Cat.perDump).flatten = (c.perDump.drop s0).take ((s0 :: ss).getLastD 0 - s0) ∧
+      (parts.map Cat.numDumps) = List.zipWith (fun a b => b - a) (s0 :: ss) ss := by
+  intro ss
+  induction ss with
+  | nil =>
+    intro s0 _ _
+    exact ⟨[], by simp [Cat.partition.go, pure, Except.pure], by simp, rfl, by simp [List.getLastD], by simp⟩
+  | cons s1 ss' ih =>
+    intro s0 hs hN
+    have hs' := List.pairwise_cons.mp hs
+    have h01 : s0 < s1 := hs'.1 s1 (List.mem_cons_self ..)
+    have hlast : (s0 :: s1 :: ss').getLastD 0 = (s1 :: ss').getLastD 0 := getLastD_cons_cons ..
+    rw [hlast] at hN
+    have h1last : s1 ≤ (s1 :: ss').getLastD 0 :=
+      sorted_head_le_last ss' s1 (hs'.2.imp (fun h => Nat.le_of_lt h))
+    obtain ⟨part, hpart, hu, hn, hpd, hgo⟩ := segment_spec c h s0 s1 h01 (by omega)
+    obtain ⟨parts', hgo', hall', hlen', hflat', hnum'⟩ := ih s1 hs'.2 hN
+    refine ⟨part :: parts', ?_, ?_, by simp [hlen'], ?_, ?_⟩
+    · rw [hgo ss', hgo']; rfl
+    · intro p hp
+      rcases List.mem_cons.mp hp with rfl | hp
+      · exact ⟨hpart, hu⟩
+      · exact hall' p hp
+    · simp only [List.map_cons, List.flatten_cons, hpd, hflat', hlast]
+      exact slice_append c.perDump s0 s1 _ (Nat.le_of_lt h01) h1last
+    · simp only [List.map_cons, hn, hnum', List.zipWith_cons_cons]
+
+/-- **partition**: for a series starting at dump 0 and strictly increasing segment starts inside
+    the series, every part is well-formed, starts at dump 0, shares the unique values, and the
+    per-dump lists of the parts are the consecutive slices of the parent's per-dump list. -/
+theorem partition_spec (c : Cat V) (h : c.Part) (s0 : Nat) (ss : List Nat)
+    (hs : (s0 :: ss).Pairwise (· < ·)) (hN : (s0 :: ss).getLastD 0 ≤ c.numDumps) :
+    ∃ parts, c.partition (s0 :: ss) = .ok parts ∧
+      (∀ p ∈ parts, p.Part ∧ p.uniq = c.uniq) ∧ parts.length = ss.length ∧
+      (parts.map Cat.perDump).flatten = (c.perDump.drop s0).take ((s0 :: ss).getLastD 0 - s0) := by
+  obtain ⟨parts, hgo, h1, h2, h3, _⟩ := go_spec_partition c h ss s0 hs hN
+  refine ⟨parts, ?_, h1, h2, h3⟩
+  obtain ⟨i0, rest, hi, he⟩ := part_view c h
+  have hlen : c.ev.dropLast.length = c.idx.length := by
+    rw [he, dropLast_cons_snoc, hi]; simp
+  simp only [Cat.partition, hlen, ne_eq, not_true_eq_false, if_false, bind, Except.bind, pure, Except.pure]
+  exact hgo
+
+/-- **Partition followed by concatenation is the identity on the per-dump list**, with or
+    without repeat removal, for every series that starts at dump 0 and every strictly increasing
+    list of segment starts from 0 to the number of dumps. -/
+theorem partition_concat_id (c : Cat V) (h : c.Part) (s1 : Nat) (ss : List Nat)
+    (hs : (0 :: s1 :: ss).Pairwise (· < ·)) (hN : (0 :: s1 :: ss).getLastD 0 = c.numDumps) (rep : Bool) :
+    ∃ parts c', c.partition (0 :: s1 :: ss) = .ok parts ∧ concatenate parts rep = .ok c' ∧
+      c'.Part ∧ c'.perDump = c.perDump ∧ c'.numDumps = c.numDumps := by
+  obtain ⟨parts, hp, hall, hlen, hflat⟩ := partition_spec c h 0 (s1 :: ss) hs (by omega)
+  have hne : parts ≠ [] := by
+    intro h0; rw [h0] at hlen; simp at hlen
+  obtain ⟨c', hc, hc'part, hpd, hnum⟩ := concat_spec parts (fun p hp' => (hall p hp').1) hne rep
+  have hpd' : c'.perDump = c.perDump := by
+    rw [hpd, hflat, hN]
+    simp only [List.drop_zero, Nat.sub_zero]
+    rw [← perDump_length c h.1, List.take_length]
+  refine ⟨parts, c', hp, hc, hc'part, hpd', ?_⟩
+  rw [← perDump_length c' hc'part.1, ← perDump_length c h.1, hpd']
+
 end Categorical
